@@ -31,7 +31,7 @@ DEFAULT_PROFILE = {
     "p_http": 0.9, "p_signature": 0.7, "p_routing": 0.25, "p_keyword_rpc": 0.08,
     "p_service_config": 0.8, "p_yaml": 0.3, "p_reserved_field": 0.08, "p_two_services": 0.25,
     "p_foreign_request": 0.1, "p_shuffle_numbers": 0.2, "p_additional_binding": 0.25,
-    "p_auto_populate": 0.0, "p_google_api_ns": 0.0, "sig_variants": False, "p_multi_var_path": 0.0, "mixin_variants": False, "p_add_iam_methods": 0.0, "p_equal_sort_keys": 0.0, "common_file_names": ["resources"],
+    "p_auto_populate": 0.0, "p_google_api_ns": 0.0, "sig_variants": False, "p_multi_var_path": 0.0, "mixin_variants": False, "p_add_iam_methods": 0.0, "p_equal_sort_keys": 0.0, "p_reserved_path_var": 0.0, "common_file_names": ["resources"],
     "transports": ["grpc", "grpc+rest", "grpc+rest", "rest"],
     "p_numeric_enums": 0.3,
     "paged_variants": False,
@@ -430,6 +430,8 @@ def _gen_methods(cx, pkg, main, svc, noun, res, enums, msgs):
     if cx.chance("p_multi_var_path") and _unique_method(svc, f"Fetch{noun}"):
         # two path variables: a templated one followed by a bare one that is a required field
         idf = f"{low}_id"
+        if cx.chance("p_reserved_path_var"):
+            idf = rng.choice(["type", "format", "license", "object", "class"])
         fields = [{"name": "parent", "number": 1, "type": "string", "required": True, "child_ref": rtype},
                   {"name": idf, "number": 2, "type": "string", "required": True}]
         used = {"parent", idf}
@@ -499,6 +501,11 @@ def _gen_methods(cx, pkg, main, svc, noun, res, enums, msgs):
         m = {"name": "SetIamPolicy", "input": ".google.iam.v1.SetIamPolicyRequest", "output": ".google.iam.v1.Policy"}
         if cx.chance("p_signature"):
             m["signatures"] = [rng.choice(["resource", "resource,policy", "resource,policy,update_mask"])]
+        if cx.p.get("sig_variants") and rng.random() < 0.5:
+            m.update({"name": "TestIamPermissions", "input": ".google.iam.v1.TestIamPermissionsRequest",
+                      "output": ".google.iam.v1.TestIamPermissionsResponse", "signatures": ["resource,permissions"]})
+            if "http" in m:
+                m["http"]["path"] = m["http"]["path"].rsplit(":", 1)[0] + ":testIamPermissions"
         if cx.p.get("mixin_variants"):
             which = rng.choice(["SetIamPolicy", "GetIamPolicy", "TestIamPermissions"])
             io = {"SetIamPolicy": (".google.iam.v1.SetIamPolicyRequest", ".google.iam.v1.Policy"),
@@ -620,7 +627,10 @@ def _sig_variants(cx, pkg, fields):
             keep.append(path)
         if keep:
             out.append(",".join(keep))
-    return out or ["name"]
+    out = out or ["name"]
+    if rng.random() < 0.2:
+        out.insert(rng.randint(0, len(out)), "")     # the (legal) empty signature, not necessarily last
+    return out
 
 
 def p_variants(cx):
@@ -737,7 +747,7 @@ def gen_routing(rng, res, field="name"):
 
 
 def _dur(rng):
-    return rng.choice(["0.25s", "0.5s", "1s", "1.5s", "2s", "0.1s", "3s", "10s", "0.75s"])
+    return rng.choice(["0.25s", "0.5s", "1s", "1.5s", "2s", "0.1s", "3s", "10s", "0.75s", "0.05s", "1.075s", "0.025s", "2.05s"])
 
 
 def gen_service_config(rng, spec, p_named=0.7):
@@ -753,13 +763,13 @@ def gen_service_config(rng, spec, p_named=0.7):
         e = {"name": [{"service": s, "method": m} for s, m in grp]}
         c = rng.random()
         if c < 0.85:
-            e["timeout"] = rng.choice(["5s", "10s", "20s", "60s", "7.5s", "2.5s", "30s", "12.25s", "600s"])
+            e["timeout"] = rng.choice(["5s", "10s", "20s", "60s", "7.5s", "2.5s", "30s", "12.25s", "600s", "2.05s", "10.005s"])
         if rng.random() < 0.7:
             ncodes = rng.choice([1, 1, 2, 2, 3, 5])
             e["retryPolicy"] = {
                 "maxAttempts": rng.randint(2, 6),
                 "initialBackoff": _dur(rng),
-                "maxBackoff": rng.choice(["1s", "2s", "4s", "10s", "32s", "60s", "0.5s", "6.5s"]),
+                "maxBackoff": rng.choice(["1s", "2s", "4s", "10s", "32s", "60s", "0.5s", "6.5s", "1.075s", "8.0625s"]),
                 "backoffMultiplier": rng.choice([1.3, 2, 1.5, 3, 1.25, 2.5, 1]),
                 "retryableStatusCodes": rng.sample(ALL_CODES, ncodes),
             }
